@@ -520,6 +520,31 @@ def _dispatch(item):
             "validator": work_validator}[kind](item[1:])
 
 
+# schemas whose DEFAULTS cannot be converted (the error only shows when a configuration is loaded):
+# an empty <default></default> element for an integer key / wildcard key, a default attribute, ...
+BAD_DEFAULT_SCHEMAS = [
+    '<schema><multikey name="a" datatype="integer"><default></default></multikey></schema>',
+    '<schema><key name="+" attribute="m" datatype="integer"><default key="x"></default></key></schema>',
+    '<schema><multikey name="+" attribute="m" datatype="integer"><default key="x"></default><default key="x">1</default></multikey></schema>',
+    '<schema><key name="a" datatype="integer" default="x"/></schema>',
+    '<schema><multikey name="a" datatype="integer"><default>1</default><default> </default></multikey></schema>',
+    '<schema><sectiontype name="t"><multikey name="a" datatype="boolean"><default></default></multikey></sectiontype>'
+    '<multisection type="t" name="*" attribute="ts"/></schema>',
+]
+
+
+def bad_defaults(col_ctx):
+    ZConfig = col_ctx.ZConfig
+    for n, xml in enumerate(BAD_DEFAULT_SCHEMAS):
+        try:
+            schema = ZConfig.loadSchemaFile(io.StringIO(xml))
+        except ZConfig.ConfigurationError:
+            continue                      # (a schema the loader refuses is not a "loadable schema")
+        for text in ("", "a 1\n", "x 1\n", "<t>\n</t>\n", "<t/>\n"):
+            col_ctx.run("text", ("bad-default", n, text), {"schema_xml": xml, "text": text},
+                        ZConfig.loadConfigFile, schema, io.StringIO(text))
+
+
 def run(tier, seed):
     use_repo()
     quick = tier == "quick"
@@ -538,11 +563,16 @@ def run(tier, seed):
         items.append(("graph", p, 16, quick))
     col = Collector()
     exempt = 0
+    import ZConfig as _Z
+    c0 = Ctx(_Z)
+    bad_defaults(c0)
+    col.merge(c0.col.partial())
     for part in pmap(_dispatch, items, chunksize=1):
         exempt += part.get("exempt", 0)
         col.merge(part)
     return col.result(
-        bound="10 corpus schemas x %d valid texts: ALL single-character "
+        bound="6 directed schemas whose defaults cannot be converted x 5 texts; "
+              "10 corpus schemas x %d valid texts: ALL single-character "
               "deletions / duplications / transpositions and insertions of "
               "each of %d metacharacters at every offset, all token-level "
               "and line-level deletions / duplications / transpositions, "
